@@ -313,6 +313,13 @@ Theorem mulM_mulMInv_id_pivots {X} (nd : X -> node (SpatialVec R) (Vec3 R) (SpIn
   Forall (fun r => snd r = d_f (dy (w_x (fst (fst r))))) (flatten (mulM_of_mulMInv KR AR nd dy t)).
 Proof. intros H. apply mulM_mulMInv_id_R. intros y Hy. destruct (H y Hy) as [H1 H2]. exact (body_ok_any_dof nd dy t y Hy H1 H2). Qed.
 
+Theorem reaction_routes_agree_pivots {X} (nd : X -> node (SpatialVec R) (Vec3 R) (SpInertia (T:=R))) (dy : X -> dyn R (SpatialVec R)) (t : tree X) :
+  (forall y, In y (flatten (abi_pass KR AR nd t)) ->
+     length (d_f (dy (fst y))) = length (n_H (nd (fst y))) /\ pivots_ok (a_D (snd y))) ->
+  map (fun r => (fst (fst r), snd r)) (flatten (react_fb KR AR nd dy t))
+  = map (fun r => (fst r, snd (snd r))) (flatten (react_art KR AR nd dy t)).
+Proof. intros H. apply reaction_routes_agree_R. intros y Hy. destruct (H y Hy) as [H1 H2]. exact (body_ok_any_dof nd dy t y Hy H1 H2). Qed.
+
 (** non-vacuity: a 3 x 3 symmetric positive definite block (as a Ball or Translation mobilizer produces) has non-zero pivots *)
 Example pivots_ok_example : pivots_ok [[4; 1; 0]; [1; 3; 1]; [0; 1; 2]].
 Proof. intros k Hk. cbn [length] in Hk.
